@@ -1,10 +1,16 @@
 """C05: OneTime.tla <-> storage session cache + the one-time-secret call sites of auth/api/iam and vcr/issuer.
 
-Pipeline: (1) TLC exhausts the prescriptive model (all invariants) and the descriptive model (the invariants the code
-is expected to keep); the per-site AtMostOnce invariants of the descriptive model are EXPECTED to be violated exactly
-at the sites whose deviation constant is still FALSE (prediction). (2) every maximal path of the descriptive model
-(2 requests quick, 2 and 3 requests thorough; with and without the validity window elapsing) is a schedule of primitive
-cache operations. (3) the Go driver replays each schedule on the real handlers over the gated real session database and
+Request contexts: the requests that present one value need not be copies of each other. ctx (c0 = the original context,
+c1 = another one in which the request is acceptable on its own) is part of the model; CONTEXTS lists the concrete
+realisations per site. The prescriptive model keys the entry by the value alone (KeyedByValueOnly); the deviating variant
+OneTime.part.amo.cfg (key = context + value) must break AtMostOnce, otherwise the dimension would be vacuous.
+
+Pipeline: (1) TLC exhausts the prescriptive model (all invariants), the descriptive model (what the code does: every
+site but the pre-authorized code is serialised; AtMostOnce at the repaired sites and the other invariants) and the permissive model (no lookup-and-burn atomic: the
+invariants that hold even so); the per-site AtMostOnce invariants of the descriptive model are EXPECTED to be violated
+exactly at the sites whose deviation constant is still FALSE (prediction; F6-preauth is left). (2) every maximal path of the
+PERMISSIVE model (2 requests quick, 2 and 3 requests thorough; with and without the validity window elapsing) is a schedule
+of primitive cache operations: the interleaved ones are those on which code without the serialisation fails. (3) the Go driver replays each schedule on the real handlers over the gated real session database and
 counts real successes per secret. (4) the recorded traces are validated by TLC against TraceOneTime.tla."""
 import collections, json, random, re, time
 from .. import vlib
@@ -25,6 +31,15 @@ VARIANTS = {
     "s2snonce": {"bad": ["vp-invalid", "dpop-garbage"]},
     "redirect": {"bad": ["unknown-subject"]},
 }
+# concrete realisations of the abstract context c1 (driver: world.prepare): what accompanies the value differs, the request
+# is still acceptable on its own. redirect / preauth requests carry nothing but the value.
+CONTEXTS = {
+    "code": ["other-tenant", "with-dpop"],
+    "reqobj": ["wallet-nonce"],
+    "vpnonce": ["nonce-field", "other-vp"],
+    "s2snonce": ["other-client", "other-scope", "with-dpop", "other-vp"],
+    "dpopjti": ["other-key", "other-token", "other-url"],
+}
 ACTIONS = ["CodeGet", "CodeDel", "CodeDeferredDelete", "ReqObjGet", "ReqObjDel", "NonceGet", "NonceDel", "NonceBurn",
            "RedirectGet", "RedirectDel", "GadAtomic", "S2SGet", "S2SPut", "S2SAtomic", "JtiGet", "JtiPut", "JtiAtomic",
            "PreExists", "PreGet", "PreDel", "PreAtomic", "Tick"]
@@ -37,18 +52,25 @@ ASSUMPTIONS = [
     "collaborators that need a network peer or key material are the repo's gomock mocks (VerifyVP, policy backend, JWT signer, "
     "AS metadata, subject manager); presentations are unsigned JSON-LD documents",
     "small scope: 2 (quick) / 3 (thorough) requests per secret value, one elapsed validity window",
+    "request contexts: two per secret value (the original one and one other); the other context is realised by the variations "
+    "listed in CONTEXTS (2 requests: every variation; 3 requests: one request in another context, variation drawn from the seed, "
+    "authorization code excluded), not by every parameter a request could carry",
 ]
 
 
 def signature(v):
-    return dict(kind=v["kind"], site=v["site"], pattern=v["pattern"])
+    sig = dict(kind=v["kind"], site=v["site"], pattern=v["pattern"])
+    if v.get("contexts"):
+        sig["contexts"] = v["contexts"]
+    return sig
 
 
 def model_runs(tier, quick):
-    """TLC on the prescriptive / descriptive configs; returns (models, states, transitions, coverage, predicted sites)."""
+    """TLC on the prescriptive / descriptive / permissive configs; returns (models, states, transitions, coverage, predicted sites)."""
     models, cover = [], collections.Counter()
     states = transitions = 0
-    for cfg, what in (("OneTime.presc.%s.cfg" % tier, "prescriptive"), ("OneTime.desc.%s.cfg" % tier, "descriptive")):
+    for cfg, what in (("OneTime.presc.%s.cfg" % tier, "prescriptive"), ("OneTime.desc.%s.cfg" % tier, "descriptive"),
+                      ("OneTime.perm.%s.cfg" % tier, "permissive")):
         m = vlib.tlc("MCOneTime", cfg, workers=WORKERS, timeout=600, coverage=not quick)
         if m.error:
             raise Inconclusive("TLC %s: %s\n%s" % (cfg, m.error, m.raw[-1500:]))
@@ -72,11 +94,22 @@ def model_runs(tier, quick):
     transitions += p.generated
     models.append(dict(cfg="OneTime.desc.amo.cfg", variant="descriptive, per-site AtMostOnce, -continue",
                        states=p.distinct, transitions=p.generated, predicted_double_success=[SITE[k] for k in predicted]))
+    # vacuity guard of the context dimension: keyed by (context, value) the otherwise prescriptive model must break the property
+    d = vlib.tlc("MCOneTime", "OneTime.part.amo.cfg", workers=1, timeout=300, extra=["-continue"])
+    if d.error and "timeout" in str(d.error):
+        raise Inconclusive("TLC OneTime.part.amo.cfg: " + d.error)
+    broken = sorted(set(re.findall(r"Invariant (\w+) is violated", d.raw)))
+    if not {"AmoS2SNonce", "AmoDpopJti", "DeadAfterFailedRedemption"} <= set(broken):
+        raise Inconclusive("vacuity: the model keyed by (context, value) does not break the property (violated: %s)\n%s" % (broken, d.raw[-1500:]))
+    states += d.distinct
+    transitions += d.generated
+    models.append(dict(cfg="OneTime.part.amo.cfg", variant="deviating: atomic but keyed by (request context, value), -continue",
+                       states=d.distinct, transitions=d.generated, violated_as_expected=broken))
     return models, states, transitions, dict(cover), predicted
 
 
 def generate(cfgs, rnd):
-    """All maximal paths of the descriptive model -> driver scripts with concretised flavours."""
+    """All maximal paths of the permissive model -> driver scripts with concretised flavours."""
     scripts = []
     gens = []
     for cfg in cfgs:
@@ -85,11 +118,28 @@ def generate(cfgs, rnd):
             raise Inconclusive("generation run %s failed: %s %s" % (cfg, g.violation, g.error))
         paths = sorted(g.printed, key=lambda b: json.dumps(b, sort_keys=True))
         gens.append(dict(cfg=cfg, states=g.distinct, transitions=g.generated, maximal_paths=len(paths)))
-        tag = "q" if "quick" in cfg else "t"
-        for i, b in enumerate(paths):
-            kind, flav = b[0]["kind"], b[0]["flav"]
+        tag = "q" if "quick" in cfg else ("u" if "ctx" in cfg else "t")
+        exhaustive_ctx = "quick" in cfg
+        n = 0
+        for b in paths:
+            kind, flav, ctx = b[0]["kind"], b[0]["flav"], b[0].get("ctx") or {}
             variant = {r: (rnd.choice(VARIANTS.get(kind, {}).get(f, [""])) if f != "good" else "") for r, f in sorted(flav.items())}
-            scripts.append(dict(id="%s%06d" % (tag, i), steps=b, variant=variant, obj_method=rnd.choice(["get", "post"])))
+            others = sorted(r for r in flav if ctx.get(r, "c0") != "c0")
+            if not others and "ctx" in cfg:
+                continue                        # generated by the configuration without contexts already
+            if not others:
+                alts = [None]
+            elif exhaustive_ctx:
+                alts = CONTEXTS[kind]           # 2 requests: every realisation of the other context
+            else:
+                alts = [rnd.choice(CONTEXTS[kind])]
+            for alt in alts:
+                context = {r: (alt if r in others else "") for r in sorted(flav)}
+                # a wallet_nonce only travels in a POST
+                method = "post" if alt == "wallet-nonce" else rnd.choice(["get", "post"])
+                scripts.append(dict(id="%s%06d" % (tag, n), steps=b, variant=variant, context=context, obj_method=method))
+                n += 1
+        gens[-1]["scripts"] = n
     return scripts, gens
 
 
@@ -154,7 +204,7 @@ def run(prop, tier, seed, replay=None):
     quick = tier == "quick"
     rnd = random.Random(seed)
     models, states, transitions, cover, predicted = model_runs("quick" if quick else "thorough", quick)
-    scripts, gens = generate(["OneTime.gen.quick.cfg"] + ([] if quick else ["OneTime.gen.thorough.cfg"]), rnd)
+    scripts, gens = generate(["OneTime.gen.quick.cfg"] + ([] if quick else ["OneTime.gen.thorough.cfg", "OneTime.gen.ctx3.cfg"]), rnd)
     for g in gens:
         states += g["states"]
         transitions += g["transitions"]
@@ -188,6 +238,12 @@ def run(prop, tier, seed, replay=None):
         per_kind[k]["ticks"] += sum(1 for e in r["trace"] if e["ev"] == "tick")
         for o in r["outcomes"].values():
             per_kind[k]["flavour:" + o["flavour"] + ("/" + o["variant"] if o.get("variant") else "")] += 1
+            if o.get("context"):
+                per_kind[k]["context:" + o["context"]] += 1
+                if o["ok"]:
+                    per_kind[k]["honoured-in-context:" + o["context"]] += 1
+        if len(set(o.get("context", "") for o in r["outcomes"].values())) > 1:
+            per_kind[k]["scripts_mixing_contexts"] += 1
         ttl[k] = r.get("secret_ttl_s") or next((e["ttl_s"] for e in r["trace"] if e["ev"] == "op" and e["op"] == "set"), ttl.get(k, 0))
         for v in r["violations"]:
             sig = signature(v)
@@ -202,9 +258,17 @@ def run(prop, tier, seed, replay=None):
     for k in SITE:
         if per_kind[k]["with_success"] == 0:
             rep.inconclusive.append("vacuous: no request was ever honoured at site %s (driver/code drift)" % SITE[k])
+    # ... and the other contexts must be acceptable contexts: a request sent in one is honoured when it comes first
+    for k, alts in CONTEXTS.items():
+        if per_kind[k]["scripts"] and not any(per_kind[k]["honoured-in-context:" + a] for a in alts):
+            rep.inconclusive.append("vacuous: no request in another context (%s) was ever honoured at site %s" % (", ".join(alts), SITE[k]))
+        for a in alts:
+            if per_kind[k]["context:" + a] and not per_kind[k]["honoured-in-context:" + a]:
+                rep.notes.append("NOTE: context %s is never honoured at site %s (the code binds it to the value now? then drop it from CONTEXTS)" % (a, SITE[k]))
     if ndrift > max(3, len(results) // 20):
         rep.inconclusive.append("%d schedule steps did not line up with the real primitives (spec/code drift)" % ndrift)
-    # prediction vs reality (informative: a repaired site simply stops reproducing)
+    # prediction vs reality (informative: a repaired site simply stops reproducing; a site that reproduces without being
+    # predicted is reported as a violation by the Go oracle above - no open finding matches it)
     for k in predicted:
         if not reproduced[k]:
             rep.notes.append("NOTE: the descriptive specification predicts a concurrent double success at %s; the real code did not "
@@ -252,10 +316,13 @@ def run(prop, tier, seed, replay=None):
                schedule_drift_notes=ndrift, steps_outside_schedule=ndeferred, inconclusive_scripts=ninc,
                action_coverage=cover, known_findings_hit=sorted(rep.known),
                rule="TLC exhausts OneTime.tla for every call site: the prescriptive variant (atomic lookup-and-burn) satisfies "
-                    "AtMostOnce, DeadAfterFailedRedemption, NoSuccessAfterExpiry; the descriptive variant (what the code does) "
-                    "satisfies the latter two. EVERY maximal path of the descriptive variant (all interleavings of the primitive "
+                    "AtMostOnce, DeadAfterFailedRedemption, NoSuccessAfterExpiry; the descriptive variant (what the code does: every site but "
+                    "the pre-authorized code is serialised since the repairs of F6) satisfies AtMostOnce at the repaired sites and the "
+                    "other two; the permissive variant (no lookup-and-burn atomic) "
+                    "satisfies the latter two. EVERY maximal path of the permissive variant (all interleavings of the primitive "
                     "cache operations of 2%s requests of every flavour combination, with and without the validity window elapsing) "
-                    "is replayed gate by gate on the real HTTP handlers over the real in-memory session database; the number of "
+                    "is replayed gate by gate, with the value presented in the original and in other request contexts (other client_id / scope / "
+                 "tenant / DPoP header / presentation / proof / wallet_nonce), on the real HTTP handlers over the real in-memory session database; the number of "
                     "honoured requests per secret value is counted on the real responses; every recorded trace is validated by "
                     "TLC against TraceOneTime.tla including the real verdict of each request" % ("" if quick else " and 3"))
     vlib.write_evidence(prop, tier, seed, "model_checking", cov, time.time() - t0, len(rep.violations), ASSUMPTIONS)
